@@ -191,6 +191,26 @@ def generate(repo):
         for k, v in zip(sm.keys, sm.values)))
     src = ast.unparse(find_func(ecls, 'is_projectable'))
     expect('return self.category_id == EffectCategoryId.target' in src, 'is_projectable shape')
+    # fighter ability -> effect map (const/eve.py)
+    ev = parse(repo, 'eos/const/eve.py')
+    fam = assign_value(ev, 'fighter_ability_map')
+    expect(isinstance(fam, ast.Dict), 'fighter_ability_map shape')
+    out.append('Definition FIGHTER_ABILITY_MAP : list (Z * Z) := [%s].' % '; '.join(
+        '(%s, %s)' % (zlit(resolve(k, known)), zlit(resolve(v, known)))
+        for k, v in zip(fam.keys, fam.values)))
+    # Booster / FighterSquad switch rules
+    b = parse(repo, 'eos/item/booster.py')
+    src = ast.unparse(find_func(find_class(b, 'Booster'), 'set_side_effect_status'))
+    expect('if status:\n        effect_mode = EffectMode.state_compliance\n    else:\n        effect_mode = EffectMode.full_compliance' in src,
+           'set_side_effect_status shape')
+    expect(ast.unparse(assign_value(b, 'SIDE_EFFECT_STATE')) == 'State.offline', 'SIDE_EFFECT_STATE')
+    fsq = parse(repo, 'eos/item/fighter_squad.py')
+    expect(ast.unparse(assign_value(fsq, 'ABILITY_EFFECT_STATE')) == 'State.active', 'ABILITY_EFFECT_STATE')
+    src = ast.unparse(find_func(find_class(fsq, 'FighterSquad'), 'set_ability_status'))
+    expect('if effect_id == default_effect_id:\n        if status:\n            effect_mode = EffectMode.full_compliance\n'
+           '        else:\n            effect_mode = EffectMode.force_stop\n    elif status:\n'
+           '        effect_mode = EffectMode.state_compliance\n    else:\n        effect_mode = EffectMode.full_compliance' in src,
+           'set_ability_status shape')
     for clsname, fname in ITEM_FILES.items():
         out.append(item_class_row(repo, clsname, fname, known))
     return '\n'.join(out) + '\n'
